@@ -291,13 +291,32 @@ func applyStep(e *env, u *universe, st Step, snapReal map[int]int) error {
 
 func applyStepUnsafe(e *env, u *universe, st Step, snapReal map[int]int) error {
 	switch st.A {
-	case "Save":
-		addr := addrBytes(vtrace.Str(st.In["a"]))
-		h, err := e.adb.LoadAccount(addr)
+	case "Load": // LoadAccount; the real account object is kept under (address, handle)
+		a := vtrace.Str(st.In["a"])
+		h, err := e.adb.LoadAccount(addrBytes(a))
 		if err != nil {
 			return fmt.Errorf("LoadAccount: %w", err)
 		}
-		acc := h.(state.UserAccountHandler)
+		if e.kept == nil {
+			e.kept = map[string]state.UserAccountHandler{}
+		}
+		e.kept[fmt.Sprint(a, "/", vtrace.Int(st.In["h"]))] = h.(state.UserAccountHandler)
+		return nil
+	case "Save", "SaveH":
+		var acc state.UserAccountHandler
+		if st.A == "SaveH" { // exactly the object loaded earlier, however stale it is by now
+			acc = e.kept[fmt.Sprint(vtrace.Str(st.In["a"]), "/", vtrace.Int(st.In["h"]))]
+			if acc == nil {
+				return fmt.Errorf("harness: no kept object for %v/%v", st.In["a"], st.In["h"])
+			}
+		} else {
+			h, err := e.adb.LoadAccount(addrBytes(vtrace.Str(st.In["a"])))
+			if err != nil {
+				return fmt.Errorf("LoadAccount: %w", err)
+			}
+			acc = h.(state.UserAccountHandler)
+		}
+		var err error
 		if dn := vtrace.Int(st.In["dn"]); dn != 0 {
 			acc.IncreaseNonce(uint64(dn))
 		}
@@ -480,7 +499,12 @@ func (r *accReplayer) run(b []Step, bi int, observeAll bool, pruning bool) (clea
 		// C07: the property predicate on the real observations, after every call
 		r.c07evals++
 		if bad := c07(u, real); len(bad) > 0 {
-			r.violation("C07", "C07/after-"+tag+"/"+strings.Join(bad, "+"),
+			sig := "C07/after-" + tag + "/" + strings.Join(bad, "+")
+			if lost, _ := st.In["lost"].(bool); st.A == "SaveH" && lost {
+				// the saved object never called SetCode and is stale in its code hash: whole-record overwrite
+				sig = "C07/stale-object-saved-without-SetCode-overwrites-code-hash"
+			}
+			r.violation("C07", sig,
 				fmt.Sprintf("code leaves do not match the referring accounts after %s: %v; real state %s (behaviour %d step %d, %s)",
 					tag, bad, canon(real), bi, si, mode), b, si, M{"real": real})
 			return false
@@ -594,7 +618,7 @@ func replayAccounts(path string) {
 func nontrivialAccounts(b []Step, prop string) bool {
 	for i, s := range b {
 		if prop == "C07" {
-			if s.A == "Remove" || (s.A == "Save" && vtrace.Str(s.In["code"]) != "keep") {
+			if s.A == "Remove" || ((s.A == "Save" || s.A == "SaveH") && vtrace.Str(s.In["code"]) != "keep") {
 				return true
 			}
 			continue
